@@ -33,7 +33,24 @@ def observe(obj):
     """strict content + declarations of a container (and its bundles) or of a record"""
     if isinstance(obj, ProvBundle):
         o = proto.canon_cont(obj)
-        return json.dumps(proto.uri_projection_full(o), sort_keys=True)
+        # ... and the text it prints as: a value object shared with a copy and re-spelled there (another prefix for the same
+        # URI) leaves the URIs alone and still changes what the source writes
+        try:
+            text = obj.get_provn()
+        except Exception as e:  # noqa
+            text = "raises %s" % type(e).__name__
+        return json.dumps([proto.uri_projection_full(o), text], sort_keys=True)
+    try:
+        text = obj.get_provn()
+    except Exception as e:  # noqa
+        text = "raises %s" % type(e).__name__
+    return json.dumps([proto.strict_record(obj), text], sort_keys=True)
+
+
+def observe_uri(obj):
+    """the URI-level part only (what a deep copy, whose objects are all its own, is compared by)"""
+    if isinstance(obj, ProvBundle):
+        return json.dumps(proto.uri_projection_full(proto.canon_cont(obj)), sort_keys=True)
     return json.dumps(proto.strict_record(obj), sort_keys=True)
 
 
@@ -332,7 +349,7 @@ def make_case(ctx, g):
                         diffs.append("add_namespace(%r, %r) answers %s:%s, in the copy %s:%s" % (pfx, u, n.prefix, n.uri, n2.prefix, n2.uri))
             if twin is not None:
                 ctx.count("twin-compared")
-                if not diffs and observe(w.conts[asked]) != observe(twin):
+                if not diffs and observe_uri(w.conts[asked]) != observe_uri(twin):
                     diffs.append("content / declarations differ from the copy after the same probes")
                 if diffs:
                     fails.append(Failure("oracle", None, "after %s, the %s side was left alone while the other was mutated, yet it no longer behaves like a "
